@@ -144,6 +144,9 @@ class Runner:
             if alg != "~":
                 argv += ["--algorithm=" + alg] if lg else ["-a", alg]
             argv += (["--claim=s:sub=x", "--claim=i:n=5", "--claim=b:admin=true"] if lg else ["-c", "s:sub=x", "-c", "i:n=5", "-c", "b:admin=true"])
+            if op.get("far"):
+                argv += (["--claim=i:exp=4102444800", "--claim=i:nbf=-4102444800", "--claim=i:big=9007199254740993"] if lg
+                         else ["-c", "i:exp=4102444800", "-c", "i:nbf=-4102444800", "-c", "i:big=9007199254740993"])
             if op.get("json"):
                 argv += ["--json={\"aud\":\"a\"}"] if lg else ["-j", "{\"aud\":\"a\"}"]
             if op.get("noiat"):
